@@ -125,10 +125,18 @@ Definition tables_ok : bool :=
   && sortedb srgb_z
   (* all linear-light values lie in [0, 1] *)
   && forallb (fun x => (0 <=? x) && (x <=? color_den)) (srgb_z ++ cube_z ++ greys_z)
-  (* the four levels are sent as the system colours 0, 8, 7, 15 (SGR 30 / 90 / 37 / 97): in xterm's
-     default palette these are (0,0,0), (127,127,127), (229,229,229), (255,255,255), of strictly
-     increasing luma, so "level k" is the k-th darkest of the four *)
+  (* WHICH FOUR LUMINANCES ("the nearest of the four available by luminance").  SPEC DECISION: the four
+     levels are sent as the system colours 0, 8, 7, 15 (SGR 30 / 90 / 37 / 97, background +10) and stand
+     for the luminances of these colours in the standard VGA / Linux-console palette: (0,0,0),
+     (85,85,85), (170,170,170), (255,255,255) = 0, 1/3, 2/3, 1 -- the values the code's thresholds
+     [0.0, 0.33, 0.66, 1.0] round.  The real luminances depend on the terminal's palette, which the
+     library cannot know; in xterm's default palette (0, 127, 229, 255 -> luma 0, .498, .898, 1) the same
+     four colours are still ordered by luminance, but "nearest" is then not exact: e.g. luma .55 is sent
+     as colour 7 (xterm .898) although colour 8 (xterm .498) is nearer there.  Recorded as a decision,
+     not as a finding (Props/C20.v, C20_gray_levels_are_vga). *)
   && sortedb (map luma_z [mkRgba 0 0 0 255; mkRgba 127 127 127 255; mkRgba 229 229 229 255; mkRgba 255 255 255 255])
+  && all2 (fun l c => Z.abs (l - luma_z c) <=? luma_den / 100) gray_levels_z
+          [mkRgba 0 0 0 255; mkRgba 85 85 85 255; mkRgba 170 170 170 255; mkRgba 255 255 255 255]
   && (nth 0 gray_codes 0 =? 30)%N && (nth 1 gray_codes 0 =? 90)%N && (nth 2 gray_codes 0 =? 37)%N
   && (nth 3 gray_codes 0 =? 97)%N && (gray_bg_offset =? 10)%N
   (* the four grey levels stand for luminance 0, 1/3, 2/3, 1 (within 0.01) *)
